@@ -417,6 +417,20 @@ theorem split_and_order_irrelevant_v1 (w : World) (hwf : WellFormed w.facts w.v2
   same_name_same_content hc (addDirsV1_faithful w hwf hbt req1 ps1 a st1 h1a h1) (addDirsV1_faithful w hwf hbt req2 ps2 b st2 h2a h2)
     n o1 o2 ob1 ob2 g1 g2 l1 l2 hob1 hob2 s1 s2
 
+/-- … and the method tables of interfaces correspond too: the same method names, bound to objects that are registered under
+one name in either universe (v2; the v1 statement is the same with `findTypesV1`/`addDirsV1`) -/
+theorem interface_methods_order_irrelevant_v2 (w : World) (hwf : WellFormed w.facts w.v2) (hbt : BtKinds w.bt)
+    (hc : Consistent w.facts w.v2) (req1 req2 : List Str) (ms1 ms2 : List (List Str)) (a b st1 st2 : LState)
+    (h1a : newUniverseV2 w req1 = some a) (h1 : loadsV2 w a ms1 = some st1)
+    (h2a : newUniverseV2 w req2 = some b) (h2 : loadsV2 w b ms2 = some st2)
+    (n : Name) (o1 o2 : Nat) (ob1 ob2 : Obj) (g1 g2 : Nat) (im1 im2 : List GMethod)
+    (hn1 : w.facts.node g1 = .iface im1) (hn2 : w.facts.node g2 = .iface im2) (hne : im1 ≠ [])
+    (l1 : AL.lookup n st1.u.types = some o1) (l2 : AL.lookup n st2.u.types = some o2)
+    (hob1 : st1.u.objs[o1]? = some ob1) (hob2 : st2.u.objs[o2]? = some ob2) (s1 : ob1.src = some g1) (s2 : ob2.src = some g2) :
+    ∀ (k : Str) (r1 : Nat), AL.lookup k ob1.methods = some r1 → ∃ r2, AL.lookup k ob2.methods = some r2 ∧ Linked st1.u st2.u r1 r2 :=
+  same_name_same_methods hc (loadsV2_faithful w hwf hbt req1 ms1 a st1 h1a h1) (loadsV2_faithful w hwf hbt req2 ms2 b st2 h2a h2)
+    n o1 o2 ob1 ob2 g1 g2 im1 im2 hn1 hn2 hne l1 l2 hob1 hob2 s1 s2
+
 /-- the members of corresponding structs correspond one for one, and their types are registered under common names -/
 theorem corresponding_structs_have_corresponding_members {u1 u2 : U} {ob1 ob2 : Obj} (h : ObjEq u1 u2 ob1 ob2)
     (hk : ob1.kind = .struct) : ob2.kind = .struct ∧ All2 (MemberEq u1 u2) ob1.members ob2.members :=
